@@ -8,10 +8,20 @@ package main
 import (
 	"fmt"
 	"os"
+	"runtime"
 
 	"verifharness/internal/core"
 	_ "verifharness/internal/props"
+	"verifharness/internal/props/c20"
 )
+
+// The crash child (C20) must issue every file system call from the main OS thread, because strace follows only that
+// thread: lock the main goroutine to it before anything else runs.
+func init() {
+	if len(os.Args) > 1 && os.Args[1] == "crashchild" {
+		runtime.LockOSThread()
+	}
+}
 
 func main() {
 	if len(os.Args) < 2 {
@@ -33,6 +43,14 @@ func main() {
 			usage()
 		}
 		os.Exit(core.RunReplay(os.Args[2]))
+	case "crashchild":
+		if len(os.Args) != 5 {
+			usage()
+		}
+		if os.Args[2] == "run" {
+			os.Exit(c20.ChildRun(os.Args[3], os.Args[4]))
+		}
+		os.Exit(c20.ChildLoad(os.Args[3], os.Args[4]))
 	case "list":
 		for _, id := range core.IDs() {
 			fmt.Println(id)
